@@ -860,6 +860,24 @@ func r7bSticky(c *RuleCtx) {
 						}
 					}
 				}
+				// ... or in a helper of the package that fn hands the writer to (`flushSyncClose(br, f)`), whose
+				// own error fn does not drop
+				for _, cs2 := range callSites(fn) {
+					h := staticCallee(cs2)
+					if flushed || h == nil || !c.p.InZap(h) || len(h.Blocks) == 0 || droppedError(cs2) || errorResultIndex(h.Signature) < 0 {
+						continue
+					}
+					for ai, a2 := range cs2.Common().Args {
+						if ai >= len(h.Params) || !sameValue(a2, a) {
+							continue
+						}
+						for _, cs3 := range callSites(h) {
+							if isCallTo(cs3, "(*bufio.Writer).Flush") && sameValue(recvOrArg0(cs3), h.Params[ai]) && !droppedError(cs3) {
+								flushed = true
+							}
+						}
+					}
+				}
 				if !flushed {
 					kind = "bufio.Writer-unflushed"
 				}
@@ -871,6 +889,27 @@ func r7bSticky(c *RuleCtx) {
 		}
 		if isNamed(arg.Type(), "bytes", "Buffer") {
 			kind = "bytes.Buffer"
+		}
+		// the file's owner, which keeps a bufio.Writer stacked on the file in an init-only field and whose
+		// Write goes to it: sticky like the bufio.Writer, provided a method of the owner flushes that field
+		// and the result is not dropped
+		if o := ownerOfType(c.p.owners, arg.Type()); o != nil && kind == "other" || (o != nil && strings.HasPrefix(kind, "parameter")) {
+			flushed := false
+			for _, f2 := range c.p.ZapFuncs {
+				for _, cs2 := range callSites(f2) {
+					if !isCallTo(cs2, "(*bufio.Writer).Flush") || droppedError(cs2) {
+						continue
+					}
+					if u, ok := recvOrArg0(cs2).(*ssa.UnOp); ok && u.Op == token.MUL {
+						if fa, ok := u.X.(*ssa.FieldAddr); ok && ownerWrapperField(fa) {
+							flushed = true
+						}
+					}
+				}
+			}
+			if flushed {
+				kind = "bufio.Writer"
+			}
 		}
 		witness := "construction: " + describeInstr(c.p, k.at)
 		okc := kind == "bytes.Buffer" || kind == "bufio.Writer"
@@ -1235,6 +1274,25 @@ func deferredUnlessCommitted(p *Program, fn *ssa.Function, at ssa.Instruction) b
 			nStores++
 			k, isK := constBool(s.Val)
 			ret, isRet := b.Instrs[len(b.Instrs)-1].(*ssa.Return)
+			if isK && k && !isRet && len(b.Succs) == 1 {
+				// `if err == nil { sf.committed = true }; return err`: the flag is set under the test that
+				// found nil the error returned right after
+				rb := b.Succs[0]
+				if ret2, isRet2 := rb.Instrs[len(rb.Instrs)-1].(*ssa.Return); isRet2 {
+					if v, _ := errorOfReturn(ret2); v != nil {
+						if ph, isPhi := v.(*ssa.Phi); isPhi && ph.Block() == rb {
+							for i, pb := range rb.Preds {
+								if pb == b {
+									v = ph.Edges[i]
+								}
+							}
+						}
+						if c, isC := v.(*ssa.Const); (isC && c.IsNil()) || nilnessAt(v, b) == isNil {
+							return
+						}
+					}
+				}
+			}
 			if !isK || !k || !isRet {
 				okAll = false
 				return
